@@ -783,10 +783,13 @@ func UpdateResourceRefs(xr resource.ComposedResourcesReferencer, desired Compose
 		refs = append(refs, *ref)
 	}
 
-	// We want to ensure our refs are stable.
+	// We want to ensure our refs are stable. The parts are joined by a
+	// character neither a kind nor a name can contain: without it two
+	// different references (e.g. Foo/bar and Foob/ar) yield the same key, and
+	// their relative order follows the iteration order of the desired map.
 	sort.Slice(refs, func(i, j int) bool {
 		ri, rj := refs[i], refs[j]
-		return ri.APIVersion+ri.Kind+ri.Name < rj.APIVersion+rj.Kind+rj.Name
+		return ri.APIVersion+"/"+ri.Kind+"/"+ri.Name < rj.APIVersion+"/"+rj.Kind+"/"+rj.Name
 	})
 
 	xr.SetResourceReferences(refs)
